@@ -497,6 +497,35 @@ fn exec(w: &mut Worker, o: &Value) {
                 }
             }
         }
+        "split_off" | "split_to" => {
+            // a BytesMut handle is split in the middle: the new piece becomes the thread's next handle
+            let mut newslot = None;
+            if let Some(s) = w.own.get_mut(i) {
+                if let Some(H::M(m)) = s.h.as_mut() {
+                    let k = m.len() / 2;
+                    let piece = if name == "split_off" { m.split_off(k) } else { m.split_to(k) };
+                    la::set_window(0);
+                    let (pexp, paddr) = if name == "split_off" {
+                        let t = s.exp.split_off(k);
+                        (t, if s.addr != 0 { s.addr + k } else { 0 })
+                    } else {
+                        let t: Vec<u8> = s.exp.drain(..k).collect();
+                        let a = s.addr;
+                        if s.addr != 0 {
+                            s.addr += k;
+                        }
+                        (t, a)
+                    };
+                    newslot = Some(Slot { h: Some(H::M(piece)), exp: pexp, addr: paddr, gid: gid() });
+                    la::set_window(1);
+                }
+            }
+            if let Some(ns) = newslot {
+                la::set_window(0);
+                w.own.push(ns);
+                la::set_window(1);
+            }
+        }
         "put" => {
             if let Some(s) = w.own.get_mut(i) {
                 if let Some(H::M(m)) = s.h.as_mut() {
